@@ -9,6 +9,7 @@ package sftp
 
 import (
 	"bytes"
+	"context"
 	"errors"
 	"fmt"
 	"io"
@@ -24,14 +25,14 @@ import (
 func TestVerifC04(t *testing.T) {
 	vfMain(t, vfCheck{
 		ID: "C04", Level: "fault_enumeration",
-		Rule:        "13 scenarios (N concurrent single calls; one read call served by several short replies; concurrent and sequential ReadAt / WriteTo / WriteAt / ReadFrom mid-transfer; callers that keep issuing requests; raw dispatchRequest ledger) x 11 fault kinds {server->client stream EOF at byte n, the stream ending right behind a reply while the caller has not started to wait yet, error at byte n (a transport error, and io.ErrClosedPipe), k-th client->server Write call fails with the connection reset, k-th Write fails one-sided, also on a transport whose Close leaves the reply stream open, k-th Write delivered but reported failed after the reply arrived}; quick: every reply-frame boundary +-1 and a seeded 12% of the interior offsets, thorough: every offset 0..T (streams longer than 2500 bytes: every offset of the first 1200 bytes and a seeded stride after) and every write index. A class is (scenario, fault kind, position bucket); non-trivial when calls were in flight at the moment of the fault.",
+		Rule:        "14 scenarios (N concurrent single calls; one read call served by several short replies; concurrent and sequential ReadAt / WriteTo / WriteAt / ReadFrom mid-transfer; callers that keep issuing requests; raw dispatchRequest ledger) x 11 fault kinds {server->client stream EOF at byte n, the stream ending right behind a reply while the caller has not started to wait yet, error at byte n (a transport error, and io.ErrClosedPipe), k-th client->server Write call fails with the connection reset, k-th Write fails one-sided, also on a transport whose Close leaves the reply stream open, k-th Write delivered but reported failed after the reply arrived}; quick: every reply-frame boundary +-1 and a seeded 12% of the interior offsets, thorough: every offset 0..T (streams longer than 2500 bytes: every offset of the first 1200 bytes and a seeded stride after) and every write index. A class is (scenario, fault kind, position bucket); non-trivial when calls were in flight at the moment of the fault.",
 		Assumptions: []string{"'bounded time' is decided as 'no stuck state' (every goroutine parked with nothing able to wake it), not as a latency bound", "the peer is scripted, so which replies were completely delivered before byte n is known exactly", "race detector on"},
-		Units:       func(tier vfTier, seed uint64) int { return 13 * 11 },
+		Units:       func(tier vfTier, seed uint64) int { return 14 * 11 },
 		Shards: func(tier vfTier) int {
-			// 14: coprime with the 13 scenarios, so that the ten units of one (slow) scenario do not all land in one child
-			return 14
+			// 15: coprime with the 14 scenarios, so that the units of one (slow) scenario do not all land in one child
+			return 15
 		},
-		Floors: map[string]int64{"fault_runs": 1200, "runs_with_calls_in_flight": 400, "ledger_channels_checked": 2000, "scenarios": 13},
+		Floors: map[string]int64{"fault_runs": 1200, "runs_with_calls_in_flight": 400, "ledger_channels_checked": 2000, "scenarios": 14},
 		Run:    c04Run,
 	})
 }
@@ -132,9 +133,36 @@ func c04Scenarios() []c04Scenario {
 				var out []c04Result
 				for i := 0; i < 12; i++ {
 					out = append(out, c04Stat(c, uint64(g)*1000+uint64(i)*17+3, lost))
+					if i%3 == 1 {
+						// the working directory is asked of the server every time, also after it was answered before
+						after := lost.Load()
+						wd, err := c.Getwd()
+						out = append(out, c04Result{name: "Getwd", err: err, good: wd != "", after: after, detail: wd})
+					}
 				}
 				return out
 			})
+		}},
+		{"abandoned-listing-then-calls", false, nil, func(c *Client, lost *atomic.Bool) []c04Result {
+			// a listing whose caller gave up (context cancelled) while its request is still owed an answer that never
+			// comes; the session goes on with ordinary calls and is then lost
+			ctx, cancel := context.WithCancel(context.Background())
+			done := make(chan error, 1)
+			go func() { _, err := c.ReadDirContext(ctx, "/hold/listing"); done <- err }()
+			for i := 0; i < 400; i++ {
+				runtime.Gosched()
+			}
+			cancel()
+			aerr := <-done
+			ar := c04Result{name: "ReadDirContext-abandoned", good: aerr != nil, detail: fmt.Sprint(aerr)}
+			if aerr != nil && !errors.Is(aerr, context.Canceled) {
+				ar.err = aerr // (lost before the cancellation was noticed: an error like any other)
+			}
+			out := []c04Result{ar}
+			for i := 0; i < 10; i++ {
+				out = append(out, c04Stat(c, uint64(i)*31+9000, lost))
+			}
+			return out
 		}},
 		{"ReadAt-conc", false, con, transfer("ReadAt", readAt)},
 		{"ReadAt-seq", false, seq, transfer("ReadAt", readAt)},
@@ -391,9 +419,7 @@ func c04RunOnce(u *vfUnit, sc c04Scenario, fault *c04Fault, hookSeed uint64) c04
 						stable++
 					}
 				}
-				cut := ctl.Delivered(vfS2C)
-				cutAt.Store(cut)
-				ctl.CutAfter(vfS2C, cut, nil, nil)
+				cutAt.Store(ctl.CutNow(vfS2C, nil))
 				for spin := 0; spin < 20000; spin++ {
 					select {
 					case <-c.clientConn.closed:
